@@ -7,12 +7,12 @@
 //! plain-f64 cyclic Jacobi eigen-decomposition of the sample covariance (divisor n-1).
 
 use linfa::traits::{Fit, Predict, Transformer};
-use linfa::Dataset;
+use linfa::DatasetBase;
 use linfa_reduction::Pca;
 use lvmc_core::enumerate as en;
 use lvmc_core::refmath::{self as rm, Mat};
 use lvmc_core::{guarded, json, par_sweep, Ctx, Level, Value, Violation};
-use ndarray::Array2;
+use ndarray::{Array2, ShapeBuilder};
 use serde::{Deserialize, Serialize};
 use std::sync::atomic::{AtomicU64, Ordering};
 
@@ -48,7 +48,17 @@ struct Case {
     x_bits: Vec<Vec<u64>>,
     k: usize,
     whiten: bool,
+    /// memory layout of the records handed to fit / predict / transform:
+    /// "standard" | "col_major_owned" | "transposed_view" | "reversed_rows_view"
+    #[serde(default = "standard_layout")]
+    layout: String,
 }
+
+fn standard_layout() -> String {
+    "standard".into()
+}
+
+const LAYOUTS: [&str; 4] = ["standard", "col_major_owned", "transposed_view", "reversed_rows_view"];
 
 #[derive(Default, Clone, Debug)]
 struct Stats {
@@ -63,6 +73,8 @@ struct Stats {
     needed_widening: u64,
     full_rank_identity_checked: u64,
     projection_checked: u64,
+    layout_compared: u64,
+    single_row_checked: u64,
     max_orth: f64,
     max_align: f64,
     max_align_widened_tol: f64,
@@ -74,6 +86,10 @@ struct Stats {
 
 fn to_arr(x: &Mat, p: usize) -> Array2<f64> {
     Array2::from_shape_fn((x.len(), p), |(i, j)| x[i][j])
+}
+
+fn x_of(case: &Case, i: usize, j: usize) -> f64 {
+    case.x[i][j]
 }
 
 fn to_mat(a: &Array2<f64>) -> Mat {
@@ -131,15 +147,63 @@ fn fmt_vec(v: &[f64]) -> String {
     format!("[{}]", parts.join(", "))
 }
 
+/// What a fit returned, kept for the layout comparison and for the classification.
+struct Fitted {
+    /// `&records - &mean`, the expression of PcaParams::fit, evaluated on the records in their layout
+    centred: Array2<f64>,
+    sigma: Vec<f64>,
+    mean: Vec<f64>,
+    comp: Mat,
+}
+
 fn run_case(case: &Case, viols: &mut Vec<Violation>) -> Stats {
     let mut sv: Vec<Violation> = Vec::new();
-    let mut fitted: Option<(Array2<f64>, ndarray::Array1<f64>, Vec<f64>)> = None;
-    let mut st = run_case_inner(case, viols, &mut sv, &mut fitted);
+    let mut fitted: Option<Fitted> = None;
+    let p = case.p;
+    let n = case.x.len();
+    let mut st = match case.layout.as_str() {
+        "col_major_owned" => {
+            // owned array in Fortran order
+            let mut a = Array2::<f64>::zeros((n, p).f());
+            for i in 0..n {
+                for j in 0..p {
+                    a[(i, j)] = case.x[i][j];
+                }
+            }
+            run_case_inner(case, a, viols, &mut sv, &mut fitted)
+        }
+        "transposed_view" => {
+            // feature-major (p x n) buffer, viewed as n x p
+            let fm = Array2::from_shape_fn((p, n), |(j, i)| case.x[i][j]);
+            run_case_inner(case, fm.t(), viols, &mut sv, &mut fitted)
+        }
+        "reversed_rows_view" => {
+            // copy with the rows in reverse order, viewed through a negative row stride
+            let rev = Array2::from_shape_fn((n, p), |(i, j)| case.x[n - 1 - i][j]);
+            run_case_inner(case, rev.slice(ndarray::s![..;-1, ..]), viols, &mut sv, &mut fitted)
+        }
+        _ => run_case_inner(case, to_arr(&case.x, p), viols, &mut sv, &mut fitted),
+    };
     st.solver_violation = !sv.is_empty();
+    // ---- the memory layout is not part of the input: same logical matrix, same seed -> same model
+    if case.kind != "err_empty" && case.kind != "err_k0" && case.kind != "err_kp1" && case.layout != "standard" && sv.is_empty() {
+        if let Some(f) = &fitted {
+            let mut std_case = case.clone();
+            std_case.layout = "standard".into();
+            let (mut v2, mut sv2, mut f2) = (Vec::new(), Vec::new(), None);
+            run_case_inner(&std_case, to_arr(&case.x, p), &mut v2, &mut sv2, &mut f2);
+            if let (Some(g), true) = (f2, sv2.is_empty()) {
+                if let Some(w) = compare_fits(case, f, &g) {
+                    viols.push(Violation::new("pca.fit.depends_on_memory_layout", w, serde_json::to_value(case).unwrap()));
+                }
+                st.layout_compared = 1;
+            }
+        }
+    }
     if !sv.is_empty() {
         // Classification only (the verdict is already decided): did the LOBPCG call of PcaParams::fit end
         // with an error that TruncatedSvd::decompose swallows (it then hands back an unconverged iterate)?
-        let cause = fitted.and_then(|(xa, mean, sigma)| guarded(|| solver_ending(&xa, &mean, case.k, &sigma)).ok().flatten());
+        let cause = fitted.and_then(|f| guarded(|| solver_ending(&f.centred, case.k, &f.sigma)).ok().flatten());
         match cause {
             Some((sig, c)) => {
                 let sigs: Vec<String> = sv.iter().map(|v| v.sig.clone()).collect();
@@ -151,17 +215,53 @@ fn run_case(case: &Case, viols: &mut Vec<Violation>) -> Stats {
     st
 }
 
+/// Model fitted on a non-standard layout vs. model fitted on the standard layout of the same matrix
+/// (both without any solver-family violation): mean, singular values and - when the spectrum has a
+/// gap at the cut - the component subspace must agree.
+fn compare_fits(case: &Case, a: &Fitted, b: &Fitted) -> Option<String> {
+    let p = case.p;
+    if a.sigma.len() != b.sigma.len() {
+        return Some(format!("{} components with layout {}, {} with the standard layout", a.sigma.len(), case.layout, b.sigma.len()));
+    }
+    for j in 0..p {
+        let m = case.x.iter().fold(0.0f64, |s, r| s.max(r[j].abs()));
+        if !((a.mean[j] - b.mean[j]).abs() <= 1e-12 * m) {
+            return Some(format!("mean()[{}] = {:e} with layout {}, {:e} with the standard layout", j, a.mean[j], case.layout, b.mean[j]));
+        }
+    }
+    // both fits passed the variance oracle (|sigma_i^2/(n-1) - lambda_i| <= 1e-6 lambda_1), so their
+    // variances may differ by at most twice that
+    let s1 = b.sigma[0];
+    for i in 0..a.sigma.len() {
+        if !((a.sigma[i] * a.sigma[i] - b.sigma[i] * b.sigma[i]).abs() <= 2.0 * TOL * s1 * s1) {
+            return Some(format!("singular value {} = {:e} with layout {}, {:e} with the standard layout", i, a.sigma[i], case.layout, b.sigma[i]));
+        }
+    }
+    // subspace: only meaningful when the cut is not inside a block of (nearly) equal singular values;
+    // both fits passed the alignment oracle, so the gap test of that oracle applies: use sigma^2
+    let kk = a.sigma.len();
+    let cov = rm::covariance(&case.x, 1.0);
+    let (lam, _) = rm::jacobi_eig(&cov);
+    let gapped = kk == p || (lam[kk - 1] - lam[kk]) / lam[0] >= GAP;
+    if gapped {
+        let e = frob_diff(&projector(&a.comp, p), &projector(&b.comp, p)) / std::f64::consts::SQRT_2;
+        if !(e <= 2.0 * TOL) {
+            return Some(format!("component subspace with layout {} differs from the standard-layout one: projector distance {:e}", case.layout, e));
+        }
+    }
+    None
+}
+
 /// Re-runs exactly the solver call of `PcaParams::fit` (centred matrix `x - &mean`, SmallRng seed 42,
 /// f32 start block, tolerance (1e-5f32)^2, 2 n iterations, Order::Largest) through the public
 /// `linfa_linalg::lobpcg::lobpcg`, which — unlike `TruncatedSvd::decompose` — reports how it ended.
 /// Returns (signature, description) when its best iterate reproduces the model's singular values bit
 /// for bit AND it either ended with an error (which `decompose` maps to Ok) or returned Ok although a
 /// residual norm is still above the tolerance (iteration cap min(10 dim, 2 n) reached).
-fn solver_ending(xa: &Array2<f64>, mean: &ndarray::Array1<f64>, k: usize, sigma_model: &[f64]) -> Option<(&'static str, String)> {
+fn solver_ending(xc: &Array2<f64>, k: usize, sigma_model: &[f64]) -> Option<(&'static str, String)> {
     use linfa_linalg::lobpcg::{lobpcg, Lobpcg};
     use linfa_linalg::Order;
     use rand::{rngs::SmallRng, Rng, SeedableRng};
-    let xc = xa - mean;
     let (n, m) = (xc.nrows(), xc.ncols());
     let mut rng = SmallRng::seed_from_u64(42);
     let x0: Array2<f32> = Array2::from_shape_fn((n.min(m), k), |_| rng.gen::<f32>());
@@ -194,19 +294,32 @@ fn solver_ending(xa: &Array2<f64>, mean: &ndarray::Array1<f64>, k: usize, sigma_
                 n, m, k, n.min(m), n, best.rnorm
             ),
         )),
+        Ok(best) if same_sigma(&best) && best.eigvecs.columns().into_iter().any(|c| !((c.dot(&c).sqrt() - 1.0).abs() <= TOL)) => Some((
+            "pca.fit.collapsed_axis_after_lobpcg_false_convergence",
+            format!(
+                "lobpcg() on the centred {}x{} matrix with block size {} returned Ok with all residual norms {:?} below the ABSOLUTE tolerance 1e-10, but its eigenvector block is not normalised: column norms {:?} (a collapsed column has a tiny residual whatever its direction); singular values bit-identical to the model's",
+                n,
+                m,
+                k,
+                best.rnorm,
+                best.eigvecs.columns().into_iter().map(|c| c.dot(&c).sqrt()).collect::<Vec<f64>>()
+            ),
+        )),
         _ => None,
     }
 }
 
-fn run_case_inner(case: &Case, viols: &mut Vec<Violation>, sv: &mut Vec<Violation>, fitted: &mut Option<(Array2<f64>, ndarray::Array1<f64>, Vec<f64>)>) -> Stats {
+fn run_case_inner<D>(case: &Case, xa: ndarray::ArrayBase<D, ndarray::Ix2>, viols: &mut Vec<Violation>, sv: &mut Vec<Violation>, fitted: &mut Option<Fitted>) -> Stats
+where
+    D: ndarray::Data<Elem = f64> + ndarray::RawDataClone,
+{
     let mut st = Stats::default();
     st.min_rel_gap_checked = f64::INFINITY;
     // `sv` collects the violations of the statements that depend on the iterative solver having
     // converged (leading eigenspace, true variances); they are classified by the caller
     let cj = || serde_json::to_value(case).unwrap();
     let (n, p, k) = (case.n, case.p, case.k);
-    let xa = to_arr(&case.x, p);
-    let ds = Dataset::from(xa.clone());
+    let ds = DatasetBase::from(xa.clone());
     let fit = guarded(|| Pca::params(k).whiten(case.whiten).fit(&ds));
 
     // ------------------------------------------------------------------ error menu
@@ -301,7 +414,7 @@ fn run_case_inner(case: &Case, viols: &mut Vec<Violation>, sv: &mut Vec<Violatio
         ));
         return st;
     }
-    *fitted = Some((xa.clone(), model.mean().clone(), sigma.clone()));
+    *fitted = Some(Fitted { centred: &xa - model.mean(), sigma: sigma.clone(), mean: mean.clone(), comp: comp.clone() });
     let nm1 = n as f64 - 1.0;
     let xmax = x.iter().flatten().fold(0.0f64, |s, v| s.max(v.abs()));
     let sx = x.iter().flat_map(|r| r.iter().zip(&mu).map(|(a, m)| (a - m).abs())).fold(0.0f64, f64::max);
@@ -473,6 +586,58 @@ fn run_case_inner(case: &Case, viols: &mut Vec<Violation>, sv: &mut Vec<Violatio
             }
         }
         Err(msg) => viols.push(Violation::new("pca.transform.panic", format!("predict(&array) / transform(dataset) panicked: {}", msg), cj())),
+    }
+    // in-place API with a re-used buffer: the result must not depend on what the buffer held before
+    {
+        use linfa::traits::PredictInplace;
+        match guarded(|| {
+            let mut buf = model.default_target(&xa);
+            model.predict_inplace(&xa, &mut buf);
+            model.predict_inplace(&xa, &mut buf);
+            buf
+        }) {
+            Ok(buf) => {
+                if buf != z {
+                    viols.push(Violation::new(
+                        "pca.predict_inplace.depends_on_previous_buffer_content",
+                        "predict_inplace called twice into the same target buffer differs from predict".to_string(),
+                        cj(),
+                    ));
+                }
+            }
+            Err(msg) => viols.push(Violation::new("pca.predict_inplace.panic", format!("predict_inplace into a re-used buffer panicked: {}", msg), cj())),
+        }
+    }
+    // per-sample function: row i of the projection of the whole matrix == projection of row i alone
+    {
+        let mut idx: Vec<usize> = vec![0, 1, n / 2, 1023, 1024, n.saturating_sub(2), n - 1];
+        idx.retain(|i| *i < n);
+        idx.sort();
+        idx.dedup();
+        for &i in &idx {
+            let one = Array2::from_shape_fn((1, p), |(_, j)| x_of(case, i, j));
+            match guarded(|| model.predict(&one)) {
+                Ok(zi) => {
+                    st.single_row_checked += 1;
+                    let bad = (0..kk).any(|c| {
+                        let (a, b) = (z[(i, c)], zi[(0, c)]);
+                        !((a - b).abs() <= 1e-12 * a.abs().max(b.abs()).max(1e-300) || (a - b).abs() <= 1e-12 * (sx + 1e-6 * xmax) * comp[c].iter().map(|v| v.abs()).sum::<f64>())
+                    });
+                    if bad {
+                        viols.push(Violation::new(
+                            "pca.predict.row_depends_on_batch",
+                            format!("row {} of predict on all {} rows = {} but predict on that row alone = {}", i, n, fmt_vec(&z.row(i).to_vec()), fmt_vec(&zi.row(0).to_vec())),
+                            cj(),
+                        ));
+                        break;
+                    }
+                }
+                Err(msg) => {
+                    viols.push(Violation::new("pca.predict.panic", format!("predict on the single row {} panicked: {}", i, msg), cj()));
+                    break;
+                }
+            }
+        }
     }
     let zm = to_mat(&z);
     // formula: (x - mean) . E^T, on the training rows and on two probe rows (the mean itself, mean + 1)
@@ -786,6 +951,22 @@ fn catalogue(n: usize, p: usize, v: usize) -> Vec<(String, Mat)> {
     out
 }
 
+/// Large-n members: rank-1 lattice ((i+1) g_j mod 4099) - 2049 with the catalogue's transformations.
+fn large_catalogue(n: usize, p: usize, all: bool) -> Vec<(String, Mat)> {
+    const G: [i64; 3] = [1, 1237, 2711];
+    let b: Mat = (0..n).map(|i| (0..p).map(|j| (((i as i64 + 1) * G[j]) % 4099 - 2049) as f64).collect()).collect();
+    let aniso = scale_cols(&b, &AXIS_SCALES, 0);
+    let mut out = vec![
+        ("large_aniso_1_10_100".to_string(), aniso.clone()),
+        ("large_offset_1e3_aniso_rotated".to_string(), add_cols(&rotate(&aniso, 0), &|j| if j % 2 == 0 { 1000.0 } else { -1000.0 })),
+    ];
+    if all {
+        out.push(("large_iso_lattice".to_string(), b.clone()));
+        out.push(("large_scale_1e-3".to_string(), scale_cols(&b, &[1e-3], 0)));
+    }
+    out
+}
+
 fn bits(x: &Mat) -> Vec<Vec<u64>> {
     x.iter().map(|r| r.iter().map(|v| v.to_bits()).collect()).collect()
 }
@@ -809,7 +990,7 @@ fn main() {
          axis scales 1:10:100, the same rotated by fixed Givens angles, rank-1 / rank-2 integer factor models + constant jitter, offset 1e3, offset +-1e3 of the rotated one, all columns x 1e-3, all x 1e3, columns x (1e-3, 1, 1e3); \
          k = 1..p with whitening off and on (full oracle), k = 0 and k = p+1 (must be Err), 0 x p data for every k (must be Err). Every member is run. \
          evaluation = one fit with all assertions; non-trivial = a valid fit inside the domain predicate; out_of_domain = (matrix, k) whose k-th covariance eigenvalue is below 100 x the solver's documented null-space cut-off; \
-         distinct by construction (family, variant, n, p, k, whitening).",
+         Every fit case is run with the records in four memory layouts (standard, column-major owned, transposed view of a feature-major buffer, reversed-row view of a reversed copy): all oracles apply to each and the model must agree with the standard-layout fit.          Large-n family: n in {1024, 1025, 1500, 2048, 4097}, p in {2,3}, k in {1, p}, 2 (quick) / 4 (thorough) lattice members ((i+1) g_j mod 4099) - 2049, whole matrix projected in one call.          For rows {0, 1, n/2, 1023, 1024, n-2, n-1} the projection of the row alone must equal its row of the whole projection; predict_inplace twice into one buffer must equal predict.          distinct by construction (family, variant, n, p, k, whitening, layout).",
     );
     ctx.assume("oracle = lvmc_core::refmath::jacobi_eig (plain f64 cyclic Jacobi) of the sample covariance with divisor n-1; its residual |C v - lambda v| <= 1e-12 lambda_1 is verified for every matrix (else MACHINERY-ERROR)");
     ctx.assume("tolerance 1e-6 (LOBPCG accuracy; TruncatedSvd precision 1e-5 / residual 1e-10) for everything that depends on the solver: orthonormality, alignment sin(angle), variances relative to lambda_1, whitened covariance, reconstruction relative to max |x - mean|");
@@ -817,6 +998,7 @@ fn main() {
     ctx.assume("eigenvalues closer than 1e-3 lambda_1 form a degenerate block: the projector of the components is compared with the projector of the eigenvectors; a block straddling the cut k is not compared (any basis of a part of it is valid), the variance statements still apply");
     ctx.assume("domain: lambda_k / lambda_1 >= 100 x (f64::EPSILON x 1e6), the null-space cut-off of linfa-linalg's TruncatedSvd; below it only 'does not panic' is demanded (counted as out_of_domain)");
     ctx.assume("formulas recomputed from the model's own numbers (ratio = sigma^2 / sum sigma^2, predict = (x - mean) E^T, explained_variance = sigma^2/(n-1)) are compared at relative 1e-9; mean at 1e-12; predict(&dataset) == predict(&array) == transform(dataset).records bitwise");
+    ctx.assume("layout comparison (only when neither fit has a solver-family violation): mean 1e-12 of the largest column entry, squared singular values 2e-6 sigma_1^2, component subspace 2e-6 when the spectrum has a gap >= 1e-3 lambda_1 at the cut; single-row projection vs row of the batch projection: 1e-12");
     ctx.assume("with whitening, 'components' are the stored rows (scaled by sqrt(n-1)/sigma); 'directions' are those rows normalised; the component subspace is their span");
 
     // ---------------- enumerate ----------------
@@ -844,7 +1026,9 @@ fn main() {
                             } else {
                                 "fit"
                             };
-                            cases.push(Case { kind: kind.into(), family: family.clone(), variant: v, n, p, x: x.clone(), x_bits: bits(&x), k, whiten });
+                            for layout in LAYOUTS {
+                                cases.push(Case { kind: kind.into(), family: family.clone(), variant: v, n, p, x: x.clone(), x_bits: bits(&x), k, whiten, layout: layout.into() });
+                            }
                         }
                     }
                 }
@@ -854,10 +1038,31 @@ fn main() {
     for &p in &ps {
         for whiten in [false, true] {
             for k in 1..=p {
-                cases.push(Case { kind: "err_empty".into(), family: "empty".into(), variant: 0, n: 0, p, x: vec![], x_bits: vec![], k, whiten });
+                cases.push(Case { kind: "err_empty".into(), family: "empty".into(), variant: 0, n: 0, p, x: vec![], x_bits: vec![], k, whiten, layout: "standard".into() });
             }
         }
     }
+    // large-n family: more rows than any internal block size; whole matrix projected in ONE call;
+    // k = 1 and k = p only (the regimes in which the eigen-solver is exact / reliable)
+    let mut n_large = 0u64;
+    for &n in &[1024usize, 1025, 1500, 2048, 4097] {
+        for &p in &[2usize, 3] {
+            for (family, x) in large_catalogue(n, p, ctx.thorough()) {
+                n_matrices += 1;
+                n_large += 1;
+                *fam_counts.entry(family.clone()).or_default() += 1;
+                let xb = bits(&x);
+                for whiten in [false, true] {
+                    for k in [1usize, p] {
+                        for layout in LAYOUTS {
+                            cases.push(Case { kind: "fit".into(), family: family.clone(), variant: 0, n, p, x: x.clone(), x_bits: xb.clone(), k, whiten, layout: layout.into() });
+                        }
+                    }
+                }
+            }
+        }
+    }
+    ctx.extra("large_n_matrices", json!(n_large));
     ctx.extra("catalogue_matrices", json!(n_matrices));
     ctx.extra("catalogue_matrices_per_family", json!(fam_counts));
     ctx.extra("cases_enumerated", json!(cases.len()));
@@ -872,6 +1077,8 @@ fn main() {
     let c_ident = AtomicU64::new(0);
     let c_err = AtomicU64::new(0);
     let c_fit = AtomicU64::new(0);
+    let c_layout = AtomicU64::new(0);
+    let c_rows = AtomicU64::new(0);
     let c_whiten = AtomicU64::new(0);
     let m_orth = AtomicU64::new(0);
     let m_align = AtomicU64::new(0);
@@ -892,7 +1099,7 @@ fn main() {
         if st.nontrivial {
             let solver_viol = st.solver_violation;
             let mut m = by_pk.lock().unwrap();
-            let e = m.entry(format!("p={} k={}", c.p, c.k)).or_insert([0, 0]);
+            let e = m.entry(format!("p={} k={}{}", c.p, c.k, if c.n >= 1024 { " large-n" } else { "" })).or_insert([0, 0]);
             e[0] += 1;
             e[1] += solver_viol as u64;
         }
@@ -906,6 +1113,8 @@ fn main() {
         c_ident.fetch_add(st.full_rank_identity_checked, Ordering::Relaxed);
         c_err.fetch_add(st.error_case as u64, Ordering::Relaxed);
         c_fit.fetch_add(st.projection_checked, Ordering::Relaxed);
+        c_layout.fetch_add(st.layout_compared, Ordering::Relaxed);
+        c_rows.fetch_add(st.single_row_checked, Ordering::Relaxed);
         if st.projection_checked > 0 && c.whiten {
             c_whiten.fetch_add(1, Ordering::Relaxed);
         }
@@ -926,7 +1135,7 @@ fn main() {
             }
         }
         if c.kind == "fit" {
-            ctx.sample(|| json!({"family": c.family, "variant": c.variant, "n": c.n, "p": c.p, "k": c.k, "whiten": c.whiten, "first_rows": c.x.iter().take(3).collect::<Vec<_>>()}));
+            ctx.sample(|| json!({"family": c.family, "variant": c.variant, "n": c.n, "p": c.p, "k": c.k, "whiten": c.whiten, "layout": c.layout, "first_rows": c.x.iter().take(3).collect::<Vec<_>>()}));
         }
     });
     let done = done.load(Ordering::Relaxed);
@@ -936,6 +1145,8 @@ fn main() {
     }
     ctx.extra("error_cases_k0_kp1_empty", json!(c_err.load(Ordering::Relaxed)));
     ctx.extra("fits_with_full_oracle", json!(c_fit.load(Ordering::Relaxed)));
+    ctx.extra("non_standard_layout_fits_compared_with_standard_fit", json!(c_layout.load(Ordering::Relaxed)));
+    ctx.extra("single_row_projections_compared", json!(c_rows.load(Ordering::Relaxed)));
     ctx.extra("fits_with_full_oracle_whitened", json!(c_whiten.load(Ordering::Relaxed)));
     ctx.extra("single_axes_compared_with_eigenvector", json!(c_single.load(Ordering::Relaxed)));
     ctx.extra("degenerate_blocks_compared_by_projector", json!(c_block.load(Ordering::Relaxed)));
